@@ -1,6 +1,10 @@
 package main
 
 import (
+	"bytes"
+	"go/ast"
+	"go/printer"
+	"golang.org/x/tools/go/ast/astutil"
 	"crypto/sha1"
 	"encoding/json"
 	"flag"
@@ -41,6 +45,7 @@ type HarnessSpec struct {
 }
 
 type UnitSpec struct {
+	RewriteGo []string      `json:"rewrite_go"` // repo files (relative to dir) whose go statements become verif_Go tasks
 	Dir       string        `json:"dir"`
 	Files     []string      `json:"files"`
 	Harnesses []HarnessSpec `json:"harnesses"`
@@ -91,6 +96,29 @@ func pkgNameOf(dir string) (string, error) {
 	return "", fmt.Errorf("no go files in %s", dir)
 }
 
+// rewriteGoStmts turns every `go f(args)` in the file into `verif_Go(func() { f(args) })`
+// so that asynchronous tasks become explicit, harness-scheduled steps that run
+// identically under the engine and natively (used in scratch overlays only).
+func rewriteGoStmts(path string) ([]byte, error) {
+	fset := token.NewFileSet()
+	f, err := parser.ParseFile(fset, path, nil, parser.ParseComments)
+	if err != nil {
+		return nil, err
+	}
+	astutil.Apply(f, func(c *astutil.Cursor) bool {
+		if g, ok := c.Node().(*ast.GoStmt); ok {
+			lit := &ast.FuncLit{Type: &ast.FuncType{Params: &ast.FieldList{}}, Body: &ast.BlockStmt{List: []ast.Stmt{&ast.ExprStmt{X: g.Call}}}}
+			c.Replace(&ast.ExprStmt{X: &ast.CallExpr{Fun: ast.NewIdent("verif_Go"), Args: []ast.Expr{lit}}})
+		}
+		return true
+	}, nil)
+	var buf bytes.Buffer
+	if err := printer.Fprint(&buf, fset, f); err != nil {
+		return nil, err
+	}
+	return buf.Bytes(), nil
+}
+
 func mustRead(p string) string {
 	b, err := os.ReadFile(p)
 	if err != nil {
@@ -128,6 +156,14 @@ func load(spec *Spec) *loaded {
 		for _, f := range u.Files {
 			src := mustRead(filepath.Join(verifRoot, "harness", spec.Property, f))
 			ov[filepath.Join(dir, "zz_verif_"+filepath.Base(f))] = []byte(src)
+		}
+		for _, rf := range u.RewriteGo {
+			path := filepath.Join(dir, rf)
+			out, err := rewriteGoStmts(path)
+			if err != nil {
+				return &loaded{errs: []string{"rewrite_go " + rf + ": " + err.Error()}}
+			}
+			ov[path] = out
 		}
 		patterns = append(patterns, "./"+u.Dir)
 	}
